@@ -1068,7 +1068,8 @@ class OdeSystem(object):
                 steps += 1
                 
                 if not is_final_step:
-                    self.dt = new_dt
+                    self.__dt = D.ar_numpy.asarray(new_dt, **self.__array_con_kwargs)
+                    self.__fix_dt_dir(tf, self.__t[self.counter])
 
                 for i in callback:
                     i(self)
